@@ -89,6 +89,7 @@ func init() {
 	// sync/atomic primitives (sequential).
 	for _, ty := range []string{"Int32", "Int64", "Uint32", "Uint64", "Uintptr"} {
 		ty := ty
+		aty := map[string]types.Type{"Int32": types.Typ[types.Int32], "Int64": types.Typ[types.Int64], "Uint32": types.Typ[types.Uint32], "Uint64": types.Typ[types.Uint64], "Uintptr": types.Typ[types.Uintptr]}[ty]
 		symExternals["sync/atomic.Load"+ty] = func(fr *frame, args []value) value { return *args[0].(*value) }
 		symExternals["sync/atomic.Store"+ty] = func(fr *frame, args []value) value {
 			*args[0].(*value) = args[1]
@@ -96,7 +97,7 @@ func init() {
 		}
 		symExternals["sync/atomic.Add"+ty] = func(fr *frame, args []value) value {
 			p := args[0].(*value)
-			*p = binop(token.ADD, nil, *p, args[1])
+			*p = binop(token.ADD, aty, *p, args[1])
 			return *p
 		}
 		symExternals["sync/atomic.Swap"+ty] = func(fr *frame, args []value) value {
@@ -107,7 +108,7 @@ func init() {
 		}
 		symExternals["sync/atomic.CompareAndSwap"+ty] = func(fr *frame, args []value) value {
 			p := args[0].(*value)
-			c := binop(token.EQL, nil, *p, args[1])
+			c := binop(token.EQL, aty, *p, args[1])
 			var eq bool
 			switch c := c.(type) {
 			case bool:
